@@ -33,7 +33,7 @@ def run(ck, rng):
             if op.startswith("fs:"):
                 # mkdir / verify in a fresh jail (names must be path elements for the two results to be comparable states)
                 from c05 import single_elem
-                if not all(single_elem(n) and len(n) < 200 for _, n in items):
+                if not all(single_elem(n) and len(n) < 200 and b"\x00" not in n for _, n in items):
                     continue
                 if op == "fs:m":
                     mk = lambda d: "hist F,d:746774;m,0,%s,746774,-,-,-,-,%s" % ("+".join(x.hex() for x in exts) if exts else "-", hx(d))
